@@ -10,8 +10,9 @@ K4 len_selfies, when it is an affine form over character counts, is count('[') +
 K5 contiguity of the bracket scanner: every iteration yields selfies[left:right+1] starting at the scan position (a '.'
    exactly when the next character is '.'), and continues right after what it yielded -- so the concatenation of the
    yielded items is the scanned prefix
+K6 get_alphabet_from_selfies traverses its (possibly one-shot) iterable exactly once, with a plain loop / comprehension
 Not decided: an implementation of len_selfies / split_selfies of another shape (a note is printed, no verdict), and the
-set equality of get_alphabet_from_selfies beyond "built from the one tokenizer, dots removed".
+set equality of get_alphabet_from_selfies beyond "one traversal, built from the one tokenizer, dots removed".
 """
 import ast
 
@@ -137,6 +138,25 @@ def run(ctx, rep):
                witness=None if ok else "utility depends on / changes process state (%s): results depend on call history"
                % "; ".join([r.detail for r in ws][:2] + memo[:2] + [ctx.pt.describe(t) for t in list(touched)[:2]]), key="pure/" + f.name, nontrivial=True)
     check_fresh_return(ctx, eff, rep, ctx.api("get_alphabet_from_selfies"), "K3", "alphabet")
+    # K6: the collection of strings may be a one-shot iterator: it is traversed exactly once, by one loop / comprehension,
+    # and every string of it reaches the tokenizer (anything else -- any(), len(), a second loop -- consumes or skips items)
+    ga = ctx.api("get_alphabet_from_selfies")
+    ip = ga.posparams[0]
+    parents = {}
+    for nd in ast.walk(ga.node):
+        for c in ast.iter_child_nodes(nd):
+            parents[id(c)] = nd
+    uses = [nd for nd in own_nodes(ga.node) if isinstance(nd, ast.Name) and nd.id == ip and isinstance(nd.ctx, ast.Load)]
+    probs = []
+    if len(uses) != 1:
+        probs.append("the iterable is used %d times (a one-shot iterator is exhausted or advanced by the first use)" % len(uses))
+    else:
+        p_ = parents.get(id(uses[0]))
+        if not ((isinstance(p_, ast.For) and p_.iter is uses[0]) or (isinstance(p_, ast.comprehension) and p_.iter is uses[0])):
+            probs.append("the iterable is not consumed by a plain loop / comprehension (%s)" % unparse(p_)[:40])
+    rep.ob("K6", not probs, uses[0] if uses else ga.node, ga, construct="traversal of %s in get_alphabet_from_selfies" % ip,
+           how="exactly one traversal, by a for loop / comprehension", witness="; ".join(probs) or None, nontrivial=True,
+           key="one-traversal/" + ("ok" if not probs else "bad"))
     check_len(ctx, rep, lens)
     check_scanner(ctx, rep, split)
     rep.floor("K1", 4)
